@@ -89,6 +89,9 @@ def walk_full_result(obj, allowed_ids):
     return None
 
 
+_UNIMPORTED_EMPTY = __import__("re").compile(r"python/(name|module):(canary_unimported|canary_pkg|antigravity|this)[\w.]*>? ''")
+
+
 def eval_doc(case, preload=False):
     import yaml
     doc, as_bytes, multi = case
@@ -111,6 +114,8 @@ def eval_doc(case, preload=False):
                 cl.add("object-construction-tag:dispatched")
             if not cons and rest.startswith("name:"):
                 cl.add("name-tag:dispatched")
+    if _UNIMPORTED_EMPTY.search(text):
+        cl.add("name-or-module-tag:unimported-module:empty-value")
     if preload:
         cl.add("preloaded-with-UnsafeLoader")
         try:
@@ -169,6 +174,11 @@ def _warm_full():
                 yaml.load(data, Loader=L)
             except Exception:
                 pass
+    # an application customises the default loaders through the module-level helpers (no Loader= argument: they fan out to
+    # Loader, FullLoader and UnsafeLoader): full loading must stay confined afterwards
+    yaml.add_multi_constructor("!c04-app/", lambda loader, suffix, node: None)
+    yaml.add_constructor("!c04-c", lambda loader, node: None)
+    yaml.add_implicit_resolver("!c04-c", __import__("re").compile("^c04app$"), ["c"])
     _warm_full.done = True
 
 
@@ -199,11 +209,11 @@ def eval_static(case):
     n = 0
     for name, cls in classes:
         n += 1
-        got = set(cls.yaml_constructors)
+        got = set(cls.yaml_constructors) - {"!c04-c"}
         if got != want:
             failures.append(Failure("static:constructor-table:%s" % name, "extra=%r missing=%r" % (
                 sorted(map(str, got - want)), sorted(map(str, want - got)))))
-        if set(cls.yaml_multi_constructors) != {safety.PY + "name:"}:
+        if set(cls.yaml_multi_constructors) - {"!c04-app/"} != {safety.PY + "name:"}:
             failures.append(Failure("static:multi-constructor-table:%s" % name, repr(sorted(map(str, cls.yaml_multi_constructors)))))
         if C.UnsafeConstructor in cls.__mro__:
             failures.append(Failure("static:full-loader-composed-with-unsafe-constructor:%s" % name, repr(cls.__mro__)))
@@ -223,6 +233,7 @@ def arms(tier):
     ]
 
 
+MIN_CLASS_COUNTS = {"name-or-module-tag:unimported-module:empty-value": 300, "object-construction-tag:dispatched": 2000}
 REQUIRED_CLASSES = ["object-construction-tag:dispatched", "name-tag:dispatched", "tag:object/apply@root", "tag:object@key",
                     "tag:module@value", "tag:name@item", "outcome:loaded", "outcome:YAMLError", "preloaded-with-UnsafeLoader",
                     "static:tables"]
